@@ -29,6 +29,8 @@ def refine_mechanism(cls: str, v: Dict[str, Any]) -> str:
     case_text = str((v.get("case") or {}).get("_queries", "")) + str((v.get("case") or {}).get("_sdl", ""))
     if cls == "names.dunder_like" and "typename__" in d and re.search(r"\btypename__\b\s*[:(]", case_text):  # the input really uses the literal name typename__ and the witness is about it
         return "user-name-equals-typename-alias"
+    if cls == "names.builtin" and ("none_required" in d or "Input should be None" in d) and re.search(r"^\s*(str|int|float|bool)\b\s*[:(]", case_text, re.M):
+        return "field-named-str-shadows-builtin-in-annotations"
     return "gen:%s:%s:%s" % (cls, v["property"], v["clause"])
 
 
@@ -59,6 +61,37 @@ def worker_b(case: Dict[str, Any]) -> CaseResult:
     res.stats["b.cases"] = 1
     if out and res.status == "held":
         res.status = "violated"
+    return res
+
+
+def worker_b_inputs(case: Dict[str, Any]) -> CaseResult:
+    """Dirty name classes in *input fields*: the C06 machinery (construction by GraphQL name / Python name, wire names, server-seen values) under the in-situ contracts."""
+    from . import c06, c18
+
+    record: Dict[str, Any] = {}
+    import ariadne_codegen.client_generators.package  # noqa: F401
+    import ariadne_codegen.client_generators.custom_operation  # noqa: F401
+    import ariadne_codegen.contrib.extract_operations  # noqa: F401
+    c18.install_contracts(record)
+    res = c06.worker(case)
+    cls = case["dirty"][0]
+    out = []
+    for v in res.violations:
+        v = dict(v)
+        if v.get("mech") == "default-id-int-literal":
+            continue  # C06's own listed finding, not a naming matter
+        v["property_orig"] = v["property"]
+        v["mech"] = refine_mechanism(cls, v)
+        v["clause"] = "generated-inputs-%s" % v["clause"]
+        v["property"] = PROP
+        out.append(v)
+    for clause, name, result, sn, trim, pyd in record.get("bad", []):
+        mech = c18.known_mechanism(name, sn, trim, clause) or "c18:insitu:%s" % clause
+        out.append(Violation(PROP, "in-situ-law-" + clause, "during generation: process_name(%r, snake=%s, trim=%s, pydantic=%s) -> %r" % (name, sn, trim, pyd, result),
+                             res.sets.get("features", []), case, mech=mech).to_json())
+    res.violations = out
+    res.stats = {"b.input_cases": 1, "b.insitu_contract_evaluations": record.get("evals", 0), "b.input_constructions": res.stats.get("constructions", 0)}
+    res.status = "violated" if out else ("held" if res.status != "inconclusive" else "inconclusive")
     return res
 
 
@@ -212,6 +245,12 @@ def parts_b_c(r: core.Run, tier: str, seed: int) -> None:
             r.mark_distinct(("B",) + tuple(sorted(res.sets.get("features", []))))
 
     core.run_forked(cases, worker_b, timeout_s=180, on_result=on_b)
+    icases = []
+    for cls in ("names.keyword", "names.soft_keyword", "names.pydantic_attr", "names.leading_underscore", "names.builtin", "names.dunder_like"):
+        for k in range(n_b):
+            icases.append(cw.make_case(seed, 2000 + i, dirty=[cls], tier="quick"))
+            i += 1
+    core.run_forked(icases, worker_b_inputs, timeout_s=180, on_result=on_b)
     ccases = []
     for snake, pairs in ((True, PAIRS_SNAKE), (False, PAIRS_NOSNAKE)):
         for pair in pairs:
@@ -223,7 +262,7 @@ def parts_b_c(r: core.Run, tier: str, seed: int) -> None:
         r.mark_distinct(("C", tuple(case["pair"]), case["scope"], case["snake"]))
 
     core.run_forked(ccases, worker_c, timeout_s=120, on_result=on_c)
-    r.floors.update({"b.cases": 30, "b.insitu_contract_evaluations": 2000, "c.cases": 50})
+    r.floors.update({"b.cases": 30, "b.input_cases": 20, "b.input_constructions": 200, "b.insitu_contract_evaluations": 2000, "c.cases": 50})
 
 
 def replay(data) -> int:
